@@ -651,8 +651,18 @@ impl E {
                 };
                 Ok(match (s, f, l) {
                     (V::S(s), V::I(f), V::I(l)) => {
+                        if f < 0 && l >= 0 {
+                            // a negative position counts characters from the end of the string
+                            // (tests/sql/substring.slt, taken from DuckDB, pins this for ASCII);
+                            // positions before the start of the string are left open
+                            let n = s.chars().count() as i64;
+                            if -f > n {
+                                return Err(RefErr::Ambiguous);
+                            }
+                            return Ok(V::S(s.chars().skip((n + f) as usize).take(l.min(n) as usize).collect()));
+                        }
                         if f < 0 || l < 0 {
-                            // negative start / length: dialects disagree
+                            // negative length: dialects disagree
                             return Err(RefErr::Ambiguous);
                         }
                         let lo = f.max(1);
